@@ -749,6 +749,29 @@ Qed.
 Lemma num_ty_forall : forall ts, forallb num_ty ts = true -> forall t, In t ts -> num_ty t = true.
 Proof. intros ts H. apply forallb_forall. exact H. Qed.
 
+(* what the tuple metamethods do with a pair of components: __ADD for +, the raw operator otherwise *)
+Definition elem_op (o : aop) (x y : value) : res value :=
+  match o, x, y with
+  | OpAdd, VStr s, VStr t => Ok (VStr (s ++ t))
+  | _, _, _ => rt_arith o x y
+  end.
+
+Lemma rt_arith_tuple : forall o xs ys,
+  rt_arith o (VTuple xs) (VTuple ys) = rmap VTuple (zipM (elem_op o) xs ys).
+Proof. reflexivity. Qed.
+
+Lemma elem_op_add : forall x y, elem_op OpAdd x y = rt_add x y.
+Proof. intros x y. destruct x; reflexivity. Qed.
+
+(* on operands of a numeric type the component operation is plain arithmetic *)
+Lemma elem_op_num : forall o t a b, num_ty t = true -> vty t a -> elem_op o a b = rt_arith o a b.
+Proof.
+  intros o t a b Hn Ha. destruct t; simpl in Hn; try discriminate.
+  - destruct Ha as [x ->]. destruct o; reflexivity.
+  - destruct Ha as [x [-> _]]. destruct o; reflexivity.
+  - destruct a; try contradiction. destruct o; reflexivity.
+Qed.
+
 (* + - * on numbers and on (nested) tuples of numbers; / of a tuple by a tuple *)
 Theorem arith_pointwise : forall o t, num_ty t = true -> forall a b, vty t a -> vty t b ->
   rt_arith o a b = pw2 (spec_fi o) (spec_ff o) t a b.
@@ -759,9 +782,10 @@ Proof.
   - destruct Ha as [x [-> _]], Hb as [y [-> _]]. change (rt_arith o (VFloat x) (VFloat y)) with (float_op o x y).
     apply float_op_spec.
   - destruct a; try contradiction. destruct b; try contradiction.
-    change (rt_arith o (VTuple vs) (VTuple vs0)) with (rmap VTuple (zipM (rt_arith o) vs vs0)).
+    rewrite rt_arith_tuple.
     f_equal. apply zipM_zipM3; try assumption.
-    pose proof (num_ty_forall ts Hn) as Hn'. rewrite Forall_forall in *. auto.
+    pose proof (num_ty_forall ts Hn) as Hn'. rewrite Forall_forall in *.
+    intros t Hin a b Ta Tb. rewrite (elem_op_num o t a b (Hn' t Hin) Ta). auto.
 Qed.
 
 (* / of a (nested) tuple of numbers by one number (int or float) of value dq *)
@@ -776,10 +800,11 @@ Proof.
     + change (rt_arith OpDiv (VFloat x) (VInt z)) with (float_op OpDiv x (z # 1)). apply (float_op_spec OpDiv).
     + change (rt_arith OpDiv (VFloat x) (VFloat dq)) with (float_op OpDiv x dq). apply (float_op_spec OpDiv).
   - destruct a; try contradiction.
-    assert (E : rt_arith OpDiv (VTuple vs) d = rmap VTuple (rmapM (fun x => rt_arith OpDiv x d) vs))
+    assert (E : rt_arith OpDiv (VTuple vs) d = rmap VTuple (rmapM (fun x => elem_op OpDiv x d) vs))
       by (destruct d; try discriminate; reflexivity).
     rewrite E. f_equal. apply (rmapM_zipM2 _ (fun t' x => pw_scalar qs_div t' x dq)); try assumption.
-    pose proof (num_ty_forall ts Hn) as Hn'. rewrite Forall_forall in *. intros t Hin a Ta. eauto.
+    pose proof (num_ty_forall ts Hn) as Hn'. rewrite Forall_forall in *. intros t Hin a Ta.
+    change (elem_op OpDiv a d) with (rt_arith OpDiv a d). eauto.
 Qed.
 
 (* unary minus *)
@@ -798,47 +823,28 @@ Qed.
 Theorem add_str_concat : forall s u, rt_add (VStr s) (VStr u) = Ok (VStr (s ++ u)).
 Proof. reflexivity. Qed.
 
-Lemma rt_add_arith : forall t a b, num_ty t = true -> vty t a -> rt_add a b = rt_arith OpAdd a b.
+(* + on everything the type checker's `add` admits -- numbers, strings, and (nested) tuples of them: numbers
+   add, strings concatenate, tuples combine element-wise (string components included since /repo a9ac36e) *)
+Theorem add_pointwise : forall t, add_ty t = true -> forall a b, vty t a -> vty t b ->
+  rt_add a b = pw_add t a b.
 Proof.
-  intros t a b Hn Ha. destruct t; simpl in Hn; try discriminate.
-  - destruct Ha as [x ->]. reflexivity.
-  - destruct Ha as [x [-> _]]. reflexivity.
-  - destruct a; try contradiction. reflexivity.
+  induction t using ty_ind'; simpl; try discriminate; intros Hn a b Ha Hb.
+  - destruct Ha as [x ->], Hb as [y ->]. reflexivity.
+  - destruct Ha as [x [-> _]], Hb as [y [-> _]].
+    change (rt_add (VFloat x) (VFloat y)) with (Ok (VFloat (q_add x y))). rewrite q_add_spec. reflexivity.
+  - destruct Ha as [x ->], Hb as [y ->]. reflexivity.
+  - destruct a; try contradiction. destruct b; try contradiction.
+    change (rt_add (VTuple vs) (VTuple vs0)) with (rt_arith OpAdd (VTuple vs) (VTuple vs0)).
+    rewrite rt_arith_tuple. f_equal. apply zipM_zipM3; try assumption.
+    rewrite forallb_forall in Hn. rewrite Forall_forall in *.
+    intros t Hin a b Ta Tb. rewrite elem_op_add. auto.
 Qed.
 
 Theorem add_num_pointwise : forall t, num_ty t = true -> forall a b, vty t a -> vty t b ->
   rt_add a b = pw_add t a b.
 Proof.
-  intros t Hn a b Ha Hb. rewrite (rt_add_arith t a b Hn Ha). revert Hn a b Ha Hb.
-  induction t using ty_ind'; simpl; try discriminate; intros Hn a b Ha Hb.
-  - destruct Ha as [x ->], Hb as [y ->]. reflexivity.
-  - destruct Ha as [x [-> _]], Hb as [y [-> _]].
-    change (rt_arith OpAdd (VFloat x) (VFloat y)) with (Ok (VFloat (q_add x y))). rewrite q_add_spec. reflexivity.
-  - destruct a; try contradiction. destruct b; try contradiction.
-    change (rt_arith OpAdd (VTuple vs) (VTuple vs0)) with (rmap VTuple (zipM (rt_arith OpAdd) vs vs0)).
-    f_equal. apply zipM_zipM3; try assumption.
-    pose proof (num_ty_forall ts Hn) as Hn'. rewrite Forall_forall in *. auto.
-Qed.
-
-(* The type checker's `add` also admits strings INSIDE tuples (typechecker.rs:1810-1817), but the tuple
-   metamethod adds the components with Lua's raw `+`, not with __ADD: a run-time error (or, for
-   numeric-looking strings, a number).  FULL-STRENGTH STATEMENT, FALSE: *)
-Definition add_pointwise_statement : Prop :=
-  forall t a b, add_ty t = true -> vty t a -> vty t b -> rt_add a b = pw_add t a b.
-
-Theorem add_pointwise_refuted :
-  exists t a b, add_ty t = true /\ vty t a /\ vty t b /\ rt_add a b = Err /\
-                pw_add t a b = Ok (VTuple [VStr "ab"; VInt 3]).
-Proof.
-  exists (TTuple [TStr; TInt]), (VTuple [VStr "a"; VInt 1]), (VTuple [VStr "b"; VInt 2]).
-  split; [reflexivity|]. split; [simpl; eauto|]. split; [simpl; eauto|].
-  split; vm_compute; reflexivity.
-Qed.
-
-Theorem add_pointwise_false : ~ add_pointwise_statement.
-Proof.
-  intros H. destruct add_pointwise_refuted as [t [a [b [H1 [H2 [H3 [H4 H5]]]]]]].
-  specialize (H t a b H1 H2 H3). rewrite H4, H5 in H. discriminate.
+  intros t Hn. apply add_pointwise. revert Hn. induction t using ty_ind'; simpl; try discriminate; auto.
+  intros Hn. rewrite forallb_forall in *. rewrite Forall_forall in H. auto.
 Qed.
 
 (* + - * never fail on numeric types and stay inside the type (int op int is an int) *)
@@ -867,9 +873,10 @@ Proof.
     + exists (VFloat (Qred (x - y))). split; [reflexivity|]. exists (Qred (x - y)). split; [reflexivity | apply q_wf_Qred].
     + exists (VFloat (Qred (x * y))). split; [reflexivity|]. exists (Qred (x * y)). split; [reflexivity | apply q_wf_Qred].
   - destruct a; try contradiction. destruct b; try contradiction.
-    change (rt_arith o (VTuple vs) (VTuple vs0)) with (rmap VTuple (zipM (rt_arith o) vs vs0)).
-    destruct (zipM_typed (rt_arith o) ts) with (xs := vs) (ys := vs0) as [rs [-> Trs]]; try assumption.
-    + pose proof (num_ty_forall ts Hn) as Hn'. rewrite Forall_forall in *. auto.
+    rewrite rt_arith_tuple.
+    destruct (zipM_typed (elem_op o) ts) with (xs := vs) (ys := vs0) as [rs [-> Trs]]; try assumption.
+    + pose proof (num_ty_forall ts Hn) as Hn'. rewrite Forall_forall in *.
+      intros t Hin a b Ta Tb. rewrite (elem_op_num o t a b (Hn' t Hin) Ta). auto.
     + exists (VTuple rs). split; [reflexivity | exact Trs].
 Qed.
 
